@@ -158,15 +158,18 @@ def check_case(res: Result, op, a, b, s, sa, sb, flavor, ref=None):
         if out[0] == rout[0]:
             res.count("both_raise")
             return ref
+        _decided(res, op, dimA, sa, sb)  # a verdict was reached for this point
         res.violation(f"{cls_base}|reference-raises", f"all-Cartesian signature raised {rout[1]} but {L.sysname(sa)} returned", case)
         return ref
     if out[0] in ("raise", "zerodiv"):
         res.traces += 1
+        _decided(res, op, dimA, sa, sb)  # a verdict was reached for this point
         res.violation(f"{cls_base}|raises", f"{op.key} raised {out[1]} for signature {L.sysname(sa)}/{sb and L.sysname(sb)} while the Cartesian signature returned a value", case)
         return ref
     res.traces += 1
     if out[0] == "bool":
         if out[1] != rout[1]:
+            _decided(res, op, dimA, sa, sb)  # a verdict was reached for this point
             res.violation(f"{cls_base}|bool", f"{op.key} = {out[1]} but {rout[1]} in Cartesian storage", case)
         else:
             res.nontrivial += 1
@@ -179,6 +182,7 @@ def check_case(res: Result, op, a, b, s, sa, sb, flavor, ref=None):
         if not ok and op.name in ("phi", "deltaphi"):
             ok = S.angle_close(x, y)
         if not ok:
+            _decided(res, op, dimA, sa, sb)  # a verdict was reached for this point
             res.violation(f"{cls_base}|value", f"{op.key} = {mpmath.nstr(x, 25)} but {mpmath.nstr(y, 25)} in Cartesian storage", case)
         elif mpmath.isnan(x):
             res.count("both_nan")
@@ -194,17 +198,20 @@ def check_case(res: Result, op, a, b, s, sa, sb, flavor, ref=None):
         head_sys = rsys[: (1 if n == 2 else 2)]
         head = G.from_stored(head_sys, rst[: n])
         if refcart is None or head is None:
+            _decided(res, op, dimA, sa, sb)  # a verdict was reached for this point
             res.violation(f"{cls_base}|nonfinite", f"{op.key}: transformed part not finite", case)
             return ref
         if not result_representable(refcart[:n], head_sys, scale):
             res.count("result_not_representable")
             return ref
         if not S.vec_close(head, refcart[:n], scale):
+            _decided(res, op, dimA, sa, sb)  # a verdict was reached for this point
             res.violation(f"{cls_base}|value", f"{op.key}: transformed part {[mpmath.nstr(v, 20) for v in head]} != {[mpmath.nstr(v, 20) for v in refcart[:n]]} (Cartesian storage)", case)
             return ref
         # stored higher coordinates passed through unchanged, same coordinate class
         in_sys, in_st = L.system_of(va)
         if rsys[len(head_sys):] != in_sys[len(head_sys):] or any(p != q for p, q in zip(rst[n:], in_st[n:])):
+            _decided(res, op, dimA, sa, sb)  # a verdict was reached for this point
             res.violation(f"{cls_base}|passthrough", f"{op.key}: stored higher coordinates changed: {in_sys}{[mpmath.nstr(v, 15) for v in in_st[n:]]} -> {rsys}{[mpmath.nstr(v, 15) for v in rst[n:]]}", case)
             return ref
         res.nontrivial += 1
@@ -220,10 +227,12 @@ def check_case(res: Result, op, a, b, s, sa, sb, flavor, ref=None):
         res.count("result_not_representable")
         return ref
     if rcart is None:
+        _decided(res, op, dimA, sa, sb)  # a verdict was reached for this point
         res.violation(f"{cls_base}|nonfinite", f"{op.key}: result {rsys}{[mpmath.nstr(v, 15) for v in rst]} denotes no finite vector; Cartesian storage gives {[mpmath.nstr(v, 15) for v in refcart]}", case)
         return ref
     sc = scale ** 2 if op.degree == 2 else scale
     if not S.vec_close(rcart, refcart, sc):
+        _decided(res, op, dimA, sa, sb)  # a verdict was reached for this point
         res.violation(f"{cls_base}|value", f"{op.key}: {[mpmath.nstr(v, 20) for v in rcart]} (returned as {L.sysname(rsys)}) != {[mpmath.nstr(v, 20) for v in refcart]} (Cartesian storage)", case)
         return ref
     res.nontrivial += 1
